@@ -770,44 +770,107 @@ class Writer:
                 out.append(item)
         return out
 
+    VALUE_LIST_TEST = "isinstance(obj, set) and all((isinstance(e, model.ValueReferencePair) for e in obj))"
+
+    def lss_branch(self, st):
+        """for lss_type, lss_tag in ((model.T, "tag"), ...):
+               if isinstance(obj, lss_type): return lang_string_set_to_xml(obj, tag=NS_AAS + lss_tag)
+           raise ValueError(...)                          -> [(class, tag), ...] in test order"""
+        if len(st.body) != 2 or not isinstance(st.body[0], ast.For) or not isinstance(st.body[1], ast.Raise):
+            err(st, "LangStringSet branch shape")
+        loop, rs = st.body
+        if not ast.unparse(rs.exc).startswith("ValueError("):
+            err(rs, "LangStringSet branch must end in ValueError")
+        if loop.orelse or not (isinstance(loop.target, ast.Tuple) and len(loop.target.elts) == 2
+                               and all(isinstance(e, ast.Name) for e in loop.target.elts)):
+            err(loop, "LangStringSet loop target")
+        tv, gv = (e.id for e in loop.target.elts)
+        if not isinstance(loop.iter, ast.Tuple):
+            err(loop, "LangStringSet loop source")
+        pairs = []
+        for e in loop.iter.elts:
+            if not (isinstance(e, ast.Tuple) and len(e.elts) == 2 and isinstance(e.elts[1], ast.Constant)
+                    and isinstance(e.elts[1].value, str)):
+                err(e, "LangStringSet (type, tag) pair")
+            pairs.append((model_class(e.elts[0]), e.elts[1].value))
+        if len(loop.body) != 1 or not isinstance(loop.body[0], ast.If) or loop.body[0].orelse:
+            err(loop, "LangStringSet loop body")
+        inner = loop.body[0]
+        if ast.unparse(inner.test) != f"isinstance(obj, {tv})" or len(inner.body) != 1 \
+                or not isinstance(inner.body[0], ast.Return) \
+                or ast.unparse(inner.body[0].value) != f"lang_string_set_to_xml(obj, tag=NS_AAS + {gv})":
+            err(inner, "LangStringSet loop body")
+        return pairs
+
     def single_object(self):
+        """object_to_xml_element: the if/elif chain, flattened per concrete class by the first matching test.
+        -> [(class, function, tag the function is called with, the call raises TypeError)]"""
         fn = self.fns["object_to_xml_element"]
         body = body_wo_doc(fn)
         chain = [b for b in body if isinstance(b, ast.If)]
         if len(chain) != 1 or ast.unparse(body[-1]) != "return serialization_func(obj)":
             err(fn, "object_to_xml_element frame")
-        rows = []
+        rows = []          # (guard class | 'ValueList', kind, payload)
         st = chain[0]
         while True:
             t = st.test
-            if not (isinstance(t, ast.Call) and is_name(t.func, "isinstance") and is_name(t.args[0], "obj")
-                    and len(st.body) == 1 and isinstance(st.body[0], ast.Assign)
-                    and is_name(st.body[0].targets[0], "serialization_func") and isinstance(st.body[0].value, ast.Name)):
+            plain = (len(st.body) == 1 and isinstance(st.body[0], ast.Assign)
+                     and is_name(st.body[0].targets[0], "serialization_func") and isinstance(st.body[0].value, ast.Name))
+            is_inst = isinstance(t, ast.Call) and is_name(t.func, "isinstance") and len(t.args) == 2 \
+                and is_name(t.args[0], "obj") and not t.keywords
+            if is_inst and plain:
+                guard = model_class(t.args[1])
+                f = st.body[0].value.id
+                if guard == "ValueList":
+                    # isinstance() on the typing alias Set[ValueReferencePair]: TypeError for every object reaching it
+                    rows.append(("ValueList", "alias", f))
+                else:
+                    rows.append((guard, "func", f))
+            elif is_inst and model_class(t.args[1]) == "LangStringSet":
+                rows.append(("LangStringSet", "lss", self.lss_branch(st)))
+            elif plain and ast.unparse(t) == self.VALUE_LIST_TEST:
+                rows.append(("ValueList", "set", st.body[0].value.id))
+            else:
                 err(st, "object_to_xml_element branch")
-            rows.append((model_class(t.args[1]), st.body[0].value.id))
             if len(st.orelse) == 1 and isinstance(st.orelse[0], ast.If):
                 st = st.orelse[0]
-            elif len(st.orelse) == 1 and isinstance(st.orelse[0], ast.Raise):
+            elif len(st.orelse) == 1 and isinstance(st.orelse[0], ast.Raise) \
+                    and ast.unparse(st.orelse[0].exc).startswith("ValueError("):
                 break
             else:
                 err(st, "object_to_xml_element chain")
         single = []
-        for c in CONCRETE:
-            for guard, f in rows:
-                if guard == "ValueList":
-                    continue
-                if issubclass(live_class(c), live_class(guard)):
-                    if f not in self.kinds:
-                        err(fn, f"unknown function {f}")
-                    if self.kinds[f] == "disp":
-                        r = self.resolve_disp(f, c)
-                        f, tag, needs_tag = r[0], r[1], False
-                    else:
-                        # serialization_func(obj) is called without a tag: a function without a default raises TypeError
-                        tag = self.default_tag.get(f)
-                        needs_tag = tag is None
-                    single.append((c, f, tag or "", needs_tag))
+        for c in CONCRETE + ["ValueList"]:
+            for guard, kind, payload in rows:
+                if c == "ValueList":
+                    # a Python set is an instance of no model class: only the ValueList tests can apply
+                    if guard != "ValueList":
+                        continue
+                    f = payload
+                    if f not in self.kinds or self.kinds[f] != "class" or self.ann_class(self.fns[f]) != "ValueList":
+                        err(fn, f"value list writer {f}")
+                    tag = self.default_tag.get(f)
+                    single.append((c, f, tag or "", kind == "alias" or tag is None))
                     break
+                if guard == "ValueList" or not issubclass(live_class(c), live_class(guard)):
+                    continue
+                if kind == "lss":
+                    hit = [tg for (lc, tg) in payload if issubclass(live_class(c), live_class(lc))]
+                    if hit:            # otherwise: ValueError, the class is not supported by the single-object writer
+                        single.append((c, "lang_string_set_to_xml", hit[0], False))
+                    break
+                f = payload
+                if f not in self.kinds:
+                    err(fn, f"unknown function {f}")
+                if self.kinds[f] == "disp":
+                    r = self.resolve_disp(f, c)
+                    f, tag, raises = r[0], r[1], False
+                else:
+                    # serialization_func(obj) is called without a tag: a function without a default raises TypeError
+                    tag = self.default_tag.get(f)
+                    raises = tag is None
+                single.append((c, f, tag or "", raises))
+                break
         return single
 
     def store_fn(self):
@@ -845,7 +908,7 @@ def emit_writer(rules, disp, single, tops, tables):
     out.append("Definition xml_w_disp : list (string * list (string * (string * string))) := [\n"
                + ";\n".join(drows) + "\n].\n")
     out.append("Definition gen_xml_w : wtables := mkWT xml_w_rules xml_w_disp xml_enum_tables.\n")
-    out.append("(* object_to_xml_element: class -> (function, tag it is called with, called without the mandatory tag) *)")
+    out.append("(* object_to_xml_element: class -> (function, tag it is called with, the call raises TypeError) *)")
     out.append("Definition xml_w_single : list (string * (string * string * bool)) := [\n  "
                + ";\n  ".join(f"({cs(c)}, ({cs(f)}, {cs(t)}, {cbool(nt)}))" for c, f, t, nt in single) + "\n].\n")
     out.append("(* object_store_to_xml_element: (list tag, item tag, writer function, class) *)")
@@ -868,7 +931,7 @@ class Reader:
         "_failsafe_construct_mandatory": "08310a99d36d", "_failsafe_construct_multiple": "1051f725148e",
         "_child_construct_mandatory": "65ccee6711e1", "_child_construct_multiple": "91f8da1e3937", "_child_text_mandatory": "ae5c0b7ae7eb",
         "_child_text_mandatory_mapped": "37e9f2832e0d", "_get_kind": "ce88a12f9b15", "_expect_reference_type": "a0afb6890a07",
-        "_select_decoder": "ccf12ebe8a06", "read_aas_xml_file_into": "06470c4dd1e4", "read_aas_xml_file": "eedfe8506067", "_parse_xml_document": "012b5deb8de3|38bcb23a8999",
+        "_select_decoder": "ccf12ebe8a06", "read_aas_xml_file_into": "06470c4dd1e4", "read_aas_xml_file": "eedfe8506067", "_parse_xml_document": "6e5c3194a573",
     }
     METHODS = {   # irregular constructor methods with a hand-audited translation
         "_construct_key_tuple": "478fb9c14cf9", "_construct_operation_variable": "c6e21cee4b2a", "construct_reference": "ddf350d55a49",
